@@ -12,7 +12,10 @@ import (
 )
 
 func runL2(c Case) *ev.Verdict {
-	v, tr := l2.RunHistory(c.H, l2.Opts{P: "C01", Trusted: true, Batch: c.Batch, Fatal: c.Fatal, FatalKind: c.FatalKind})
+	v, tr := l2.RunHistory(c.H, l2.Opts{P: "C01", Trusted: true, Batch: c.Batch, Fatal: c.Fatal, FatalKind: c.FatalKind, Net: c.Level == "L3"})
+	if c.Level == "L3" {
+		v.Class("L3-real-grpc")
+	}
 	classify(v, tr)
 	if c.Fatal > 0 && tr.Failed > 0 {
 		v.Class("fatal-op-mid-request")
@@ -74,6 +77,10 @@ func campaignL2(t *testing.T) {
 		} else {
 			c = drawL2(rt)
 			c.H, wild = hgen.MaybeRename(rt, c.H, 20)
+		}
+		if rapid.IntRange(0, 3).Draw(rt, "l3?") == 0 {
+			// the same history over real gRPC (bufconn): transport must not change anything
+			c.Level, c.Fatal, c.FatalKind = "L3", 0, 0
 		}
 		v := runCase(c)
 		if wild == "bulk" {
